@@ -2,7 +2,7 @@
 import z3
 from harness import *
 from wrapbase import *
-from c15 import gen_paragraph, gen_prefix_indent
+from c15 import gen_paragraph, gen_prefix_indent, PARA_TEMPLATES
 
 
 class C16(WrapHarness):
@@ -21,6 +21,11 @@ class C16(WrapHarness):
                             continue
                         out.append({'feat': 'full', 'algo': algo, 'sep': 'A', 'split': 'H', 'bw': False, 'le1': le1,
                                     'le2': le2, 'trail': trail, 'k': 3 if q else 4, 'imax': 1 if q else 2, 'wmax': 1 << 16})
+        for t in (PARA_TEMPLATES[:1] if q else PARA_TEMPLATES):
+            for algo in ('F', 'O'):
+                for le1, le2 in ((('LF', 'LF'),) if q else (('LF', 'LF'), ('CRLF', 'LF'), ('LF', 'CRLF'))):
+                    out.append({'feat': 'full', 'algo': algo, 'sep': 'A', 'split': 'H', 'bw': False, 'le1': le1, 'le2': le2,
+                                'trail': le1 == 'LF', 'k': 0, 'imax': 1, 'wmax': 1 << 16, 'ptmpl': t})
         return out
 
     def bounds_text(self, tier):
@@ -30,7 +35,7 @@ class C16(WrapHarness):
                 'without trailing line ending; only fills of >= 2 lines (as the property states)' % (3 if q else 4, 1 if q else 2))
 
     def run(self, I, cfg):
-        para = gen_paragraph(I, cfg['k'])
+        para = gen_paragraph(I, cfg['k'], tmpl=cfg.get('ptmpl'))
         ii = gen_prefix_indent(I, 'i', cfg['imax'])
         si = gen_prefix_indent(I, 's', cfg['imax'])
         W1 = I.sym_int('W1', 0, cfg['wmax'])
